@@ -697,6 +697,8 @@ CONTRACTS["ufo2ft.filters.flattenComponents:_flattenComponent"].runtime = Runtim
 # recursive call site) and establishes `glyph.name in visited`; `visited` only grows (proved).  Hence the names of the activations of
 # one top-level call are pairwise distinct keys of the glyph set: at most len(glyphSet) activations, each with a finite loop.  (The
 # engine has no cardinality of symbolic sets, so the final pigeonhole step is this paragraph, not an obligation.)
+# `#rec`: an activation that RECEIVES the two shared containers (every recursive call); `#top`: the two-argument call of the callers,
+# verified from the same body (its recursive calls go through `#rec`).
 # The converse "a reachable cycle ==> InvalidFontData" is a transitive-closure statement: exhaustive enumeration in vcheck/hooks/c02.py.
 
 
@@ -756,8 +758,6 @@ _GMCD_HINTS = {"rec_stack.append(glyph.name)": [
     "all(glyphSet.rank[rec_stack[k]] >= glyphSet.rank[glyph.name] for k in range(len(rec_stack)))",
 ]}
 
-# (waiting for engine request 9 in notes/C01.requests.md: until `modifies` tolerates the dead `if visited is None: visited = set()`
-#  the two contracts below are NOT registered for the check — the Ref-typed variant further down is)
 _GMCD_PROPS: list = ["C02"]
 
 contract(
@@ -817,109 +817,6 @@ contract(
     locals={"baseGlyph": Ref("C02_FGlyph"), "visited": Set(STR), "rec_stack": List(STR)},
 )
 
-# ---- the same contract with the two shared containers as HEAP OBJECTS (registered) ---------------------------------------------------
-# `visited` (a set) and `rec_stack` (a list) are created once by the top-level activation and shared by all recursive ones.  Modelled
-# as objects with one field `items` each: `x in c`, `add`, `append`, `pop` are the builtin set / list operations on that field
-# (TRUSTED: builtin semantics).  For a Ref-typed parameter `visited is None` is false, so the two default-filling statements are dead
-# in this variant; that the two-argument call differs from it ONLY by `visited = set()` / `rec_stack = []` is the syntactic hook
-# obligation C02.frame.gmcd-defaults.
-
-
-def _ns_contains(ex, st, self, x):
-    return z3.Select(lift(ex.read_field(st, self, "items")), lift(x, STR))
-
-
-def _ns_add(ex, st, self, args, kwargs, node):
-    s = ex.read_field(st, self, "items")
-    ex.write_field(st, self, "items", Val(s.ty, z3.Store(lift(s), lift(args[0], STR), True)), node)
-    return Val.const(None)
-
-
-_ns_add.modifies = ["C02_NameSet.items"]
-cls("C02_NameSet", fields={"items": Set(STR)}, contains=_ns_contains, methods={"add": _ns_add}, views={"items": lambda o: set(o)},
-    notes="a python set of glyph names shared between activations (builtin set: `in`, add)")
-
-
-def _stk_contains(ex, st, self, x):
-    """`x in list`: some position holds x (stated with the position, which is what the ∀-over-positions facts of the contract match)"""
-    s = lift(ex.read_field(st, self, "items"))
-    i = z3.Int(fresh_name("stkpos"))
-    return z3.Exists([i], z3.And(0 <= i, i < z3.Length(s), s[i] == lift(x, STR)))
-
-
-def _stk_append(ex, st, self, args, kwargs, node):
-    s = ex.read_field(st, self, "items")
-    t, x = lift(s), lift(args[0], STR)
-    new = z3.Concat(t, z3.Unit(x))
-    # consequences of the concat term, spelled out position by position (what the ∀-over-positions clauses match)
-    k = z3.Int(fresh_name("stkk"))
-    st.assume(z3.And(z3.Length(new) == z3.Length(t) + 1, new[z3.Length(t)] == x, z3.ForAll([k], z3.Implies(z3.And(0 <= k, k < z3.Length(t)), new[k] == t[k]))))
-    ex.write_field(st, self, "items", Val(s.ty, new), node)
-    return Val.const(None)
-
-
-def _stk_pop(ex, st, self, args, kwargs, node):
-    if args or kwargs:
-        raise Unsupported("list.pop(i)", node)
-    s = ex.read_field(st, self, "items")
-    t = lift(s)
-    ex.safety(st, z3.Length(t) > 0, "IndexError", node)
-    ex.write_field(st, self, "items", Val(s.ty, z3.Extract(t, 0, z3.Length(t) - 1)), node)
-    return Val(STR, t[z3.Length(t) - 1])
-
-
-_stk_append.modifies = ["C02_NameStack.items"]
-_stk_pop.modifies = ["C02_NameStack.items"]
-cls("C02_NameStack", fields={"items": List(STR)}, contains=_stk_contains, methods={"append": _stk_append, "pop": _stk_pop}, views={"items": lambda o: list(o)},
-    notes="a python list of glyph names used as a stack, shared between activations (builtin list: `in`, append, pop)")
-
-contract(
-    "ufo2ft.util:getMaxComponentDepth",
-    name="walk",
-    props=["C02"],
-    calls={"ufo2ft.util:getMaxComponentDepth": "ufo2ft.util:getMaxComponentDepth#walk"},  # the recursive call: its own contract
-    params={"glyph": Ref("C02_FGlyph"), "glyphSet": Ref("C02_FGlyphSet"), "maxComponentDepth": INT, "visited": Ref("C02_NameSet"), "rec_stack": Ref("C02_NameStack")},
-    returns=INT,
-    modifies=["C02_NameSet.items", "C02_NameStack.items"],
-    requires=[
-        _RANKED,  # acyclic: a rank function exists (see above)
-        _IN_SET,  # the glyph is the glyph set's entry of its own name (call sites: glyphSet[name], allGlyphs.items())
-        f"implies({_HASC}, glyph.name not in visited.items)",  # the function's own `assert`; MEASURE: this activation's name is new ...
-        "all(glyphSet.rank[s] > glyphSet.rank[glyph.name] for s in rec_stack.items)",  # the glyphs on the recursion stack are proper ancestors
-    ],
-    ensures={
-        **_GMCD_POST,
-        "visited-only-grows": "all(n in visited.items for n in old(visited.items))",  # MEASURE: ... `visited` never shrinks ...
-        "own-name-visited": f"implies({_HASC}, glyph.name in visited.items)",  # MEASURE: ... and this name is in it afterwards
-        "stack-restored": "rec_stack.items == old(rec_stack.items)",
-        "leaf-touches-nothing": f"implies(not {_HASC}, visited.items == old(visited.items))",
-    },
-    raises={"InvalidFontData": "False"},  # never on a ranked (acyclic) glyph set
-    canaries={"always-one": "result == maxComponentDepth + 1", "exact-height": "result == maxComponentDepth + glyphSet.rank[glyph.name]"},
-    ghost_vars={"V1": (Set(STR), "set()"), "RS1": (List(STR), "[]")},
-    ghost={"rec_stack.append(glyph.name)": ["V1 = visited.items", "RS1 = rec_stack.items"]},
-    hints={"rec_stack.append(glyph.name)": [
-        # the list update position by position, then the rank fact for the extended stack (the solvers do not get there from the concat term)
-        "len(rec_stack.items) == len(old(rec_stack.items)) + 1 and rec_stack.items[len(old(rec_stack.items))] == glyph.name",
-        "all(rec_stack.items[k] == old(rec_stack.items)[k] for k in range(len(old(rec_stack.items))))",
-        "all(glyphSet.rank[rec_stack.items[k]] >= glyphSet.rank[glyph.name] for k in range(len(rec_stack.items)))",
-    ]},
-    loops={
-        "for component in glyph.components": Loop(
-            index="i",
-            invariants={
-                "depth-lower": "maxComponentDepth >= initialMaxComponentDepth",
-                "depth-upper": "maxComponentDepth <= initialMaxComponentDepth - 1 + glyphSet.rank[glyph.name]",
-                "visited-grows": "all(n in visited.items for n in V1)",
-                "stack": "rec_stack.items == RS1",
-                "stack-ranks": "all(glyphSet.rank[RS1[k]] >= glyphSet.rank[glyph.name] for k in range(len(RS1)))",
-            },
-        )
-    },
-    locals={"baseGlyph": Ref("C02_FGlyph")},
-)
-
-
 def _gmcd_cases(rng, n):
     from vcheck.hooks import c15_render as R
 
@@ -944,4 +841,5 @@ def _gmcd_build(d):
     return {"glyph": gs[d["glyph"]], "glyphSet": gs, "maxComponentDepth": d["depth"], "visited": set(d["visited"]), "rec_stack": []}
 
 
-CONTRACTS["ufo2ft.util:getMaxComponentDepth#walk"].runtime = Runtime(_gmcd_cases, _gmcd_build)
+CONTRACTS["ufo2ft.util:getMaxComponentDepth#rec"].runtime = Runtime(_gmcd_cases, _gmcd_build)
+CONTRACTS["ufo2ft.util:getMaxComponentDepth#top"].runtime = Runtime(_gmcd_cases, lambda d: {k: v for k, v in _gmcd_build(d).items() if k in ("glyph", "glyphSet")})
